@@ -96,7 +96,7 @@ Theorem name_only_compensation_refuted :
     exec sched init = Some s /\ no_timeout sched = true /\ pres s 0 = true /\ is_subscribed s 0 = false /\
     raced_items s (tick_added s 4) = [0] /\ raced_items_name_only s (tick_added s 4) = [].
 Proof.
-  destruct tick_vs_resub_mid as (s & E & NT & P & S & _ & R1 & R2). exists tick_vs_resub, s. auto.
+  destruct tick_vs_resub_mid as (s & E & NT & P & S & _ & R1 & R2). exists tick_vs_resub, s. repeat split; auto.
 Qed.
 
 Theorem tick_vs_resub_no_stale :
